@@ -1,8 +1,8 @@
 /-
 Specification of the importer step for C01 / C08, written cell by cell (independent of the model's list surgery):
 what a parser can observe of a grid is the text at each position (blank outside). A file written from `rows`
-must read, at every position, the text that was written there; CSV files written with unquoted blank records lose
-those records (they are empty lines), so positions are counted on the grid without them.
+must read, at every position, the text that was written there (true of CSV since fix D46: empty lines used to be
+skipped, which moved later rows up).
 -/
 import TableauVerif.Model.Basic
 namespace TableauVerif.Spec.Grid
@@ -18,8 +18,6 @@ def sameCells (written obs : List (List Str)) : Bool :=
   let w := max (width written) (width obs)
   (List.range h).all fun i => (List.range w).all fun j => cellAt obs i j == cellAt written i j
 
-/-- `emptyLines` = the writer puts a record of one blank cell out as an empty line -/
-def holds (emptyLines : Bool) (written obs : List (List Str)) : Bool :=
-  sameCells (if emptyLines then written.filter (· != [[]]) else written) obs
+def holds (written obs : List (List Str)) : Bool := sameCells written obs
 
 end TableauVerif.Spec.Grid
